@@ -127,6 +127,13 @@ Theorem C18_outer_spaces_same_tree : forall cfg parse_float regex_ok n1 n2 s r, 
   parse_with cfg parse_float regex_ok jsonpath_grammar (chain_path (s :: r)).
 Proof. exact padded_same_parse. Qed.
 Print Assumptions C18_outer_spaces_same_tree.
+(* the same when the path has filters (NoDollarFilt.v, FPaddedExec) *)
+Theorem C18_outer_spaces_same_tree_with_filters : forall cfg parse_float regex_ok n1 n2 s r,
+  forallb fstep_ok (s :: r) = true -> forallb (fstep_okp parse_float regex_ok) (s :: r) = true ->
+  parse_with cfg parse_float regex_ok jsonpath_grammar (fpadded_path n1 n2 (s :: r)) =
+  parse_with cfg parse_float regex_ok jsonpath_grammar (fchain_path (s :: r)).
+Proof. exact fpadded_same_parse. Qed.
+Print Assumptions C18_outer_spaces_same_tree_with_filters.
 
 
 (* Equivalent spellings in general, from the path text (SpellText.v): two paths of steps and filters (KeyDefs.fchain_path)
